@@ -93,7 +93,8 @@ def prune_cache(keep):
         return
     ds = sorted([os.path.join(base, d) for d in os.listdir(base)], key=os.path.getmtime, reverse=True)
     for d in ds[4:]:
-        if os.path.basename(d) != keep:
+        # never remove a cache another (concurrent) check may still be using: only directories untouched for two hours go
+        if os.path.basename(d) != keep and time.time() - os.path.getmtime(d) > 7200:
             shutil.rmtree(d, ignore_errors=True)
 
 
